@@ -29,7 +29,9 @@ Menu == { It("cmt", "", FALSE, <<>>), It("inc", "", FALSE, <<>>), It("abi", "", 
           \* colliding expansions: the same value twice, values that are repetitions of one another under several references
           It("var", "a", FALSE, << <<L("/p")>> >>),
           It("var", "a", TRUE,  << <<L("/3")>>, <<L("/3/3")>> >>),
-          It("var", "exec_path", TRUE,  << <<L("/o"), R("a"), R("a"), R("a")>> >>) }
+          It("var", "exec_path", TRUE,  << <<L("/o"), R("a"), R("a"), R("a")>> >>),
+          \* an error in a variable the attachment does not use: it must be reported all the same
+          It("var", "b", TRUE,  << <<R("nodef"), L("/s")>> >>) }
 Atts == << <<R("exec_path")>> >>
 
 \* the preamble is built item by item, so that TLC's workers share the exploration
